@@ -526,6 +526,161 @@ def mergeItemTL (var : Variant) (r : Row α) (it : TLItem α) (host : Tag) (pick
 def receive (var : Variant) (it : TLItem α) (bucketTs : Nat) (host : Tag) : MergedRow α :=
   mergeItemTL var (Row.empty (keyFromTL it bucketTs)) it host false
 
+/-! ### the string → int32 mapping glue of handleSendSourceBucket
+
+  The aggregator replaces every string it knows a mapping for (string tags of the key, the three host string tags of the
+  tail and of every top element, the string-top tag itself) by the mapped int32 before the row is merged; `mp` is the
+  aggregator's mapping table (`getTagValueBytes`), a value ≤ 0 or an empty string means "not mapped" (`mapStringTag`
+  returns 0).  Invalid strings (`validateStringTag` fails: the row is dropped) are outside the model. -/
+
+def mapStr (mp : Str → Int) (s : Str) : Int := if s.isEmpty then 0 else mp s
+
+/-- a TagUnion as the aggregator sees it: a mapped string becomes its int -/
+def mapTag (mp : Str → Int) (t : Tag) : Tag := if t.i = 0 ∧ 0 < mapStr mp t.s then ⟨mapStr mp t.s, []⟩ else t
+
+def mapHostI (mp : Str → Int) (i : Option Int) (s : Option Str) : Option Int :=
+  match s with
+  | some str => if 0 < mapStr mp str then some (mapStr mp str) else i
+  | none => i
+
+def mapHostS (mp : Str → Int) (s : Option Str) : Option Str :=
+  match s with
+  | some str => if 0 < mapStr mp str then none else some str
+  | none => none
+
+/-- `if item.Tail.IsSetMaxHostStag … SetMaxHostTag(m); ClearMaxHostStag` and the same for min / max-counter host -/
+def mapTLValue (mp : Str → Int) (t : TLValue α) : TLValue α :=
+  { t with
+    hmaxI := mapHostI mp t.hmaxI t.hmaxS
+    hmaxS := mapHostS mp t.hmaxS
+    hminI := mapHostI mp t.hminI t.hminS
+    hminS := mapHostS mp t.hminS
+    hcntI := mapHostI mp t.hcntI t.hcntS
+    hcntS := mapHostS mp t.hcntS }
+
+/-- `ptb.Tag = m; ptb.Stag = ptb.Stag[:0]` plus the host mapping of the element's value -/
+def mapTLTop (mp : Str → Int) (e : TLTop α) : TLTop α :=
+  { stag := if 0 < mapStr mp e.stag then [] else e.stag
+    tag := if 0 < mapStr mp e.stag then some (mapStr mp e.stag) else e.tag
+    value := mapTLValue mp e.value }
+
+def mapItem (mp : Str → Int) (it : TLItem α) : TLItem α :=
+  { it with tail := mapTLValue mp it.tail, top := it.top.map (List.map (mapTLTop mp)) }
+
+/-- KeyFromStatshouseMultiItem + the Skeys loop of handleSendSourceBucket: `k.Tags[i] = m` if mapped, else `k.STags[i] = str` -/
+def keyFromTLm (mp : Str → Int) (it : TLItem α) (bucketTs : Nat) : Key :=
+  { ts := (tsFromTL it.t bucketTs).1
+    metric := it.metric
+    tags := List.zipWith (fun (t : Int) (s : Str) => if 0 < mapStr mp s then mapStr mp s else t)
+      (padTo maxTags 0 it.keys) (padTo maxTags [] (it.skeys.getD []))
+    stags := (padTo maxTags [] (it.skeys.getD [])).map (fun (s : Str) => if 0 < mapStr mp s then [] else s) }
+
+/-- what the aggregator that knows the mappings `mp` holds after handleSendSourceBucket processed `it` -/
+def receiveM (var : Variant) (mp : Str → Int) (it : TLItem α) (bucketTs : Nat) (host : Tag) : MergedRow α :=
+  mergeItemTL var (Row.empty (keyFromTLm mp it bucketTs)) (mapItem mp it) host false
+
+/-! ### agent side: string tops at capacity (MultiItem.MapStringTop / resample / FinishStringTop, MultiValue.Merge)
+
+  Relational in the random draws and in the Go map / unstable-sort order (DESIGN §4.2–4.3): WHICH entries a resample
+  round evicts and in WHICH order they are folded into Tail are inputs; the model checks the necessary conditions the
+  code imposes on them and returns `none` for an impossible input. -/
+
+/-- MultiValue.Merge: ChUnique.Merge at skipDegree 0 = union; the digest of `b` is adopted or its (processed)
+    centroids are added — the list is what tdigest reports, trusted -/
+def mvMerge (a b : MultiValue α) (pick : Bool) : MultiValue α :=
+  { v := itemMerge a.v b.v pick
+    dg := match b.dg with
+      | none => a.dg
+      | some lb => match a.dg with
+        | none => some lb
+        | some la => some (la ++ lb)
+    uq := b.uq.foldl setInsert a.uq }
+
+def topRemove (top : List (Tag × MultiValue α)) (k : Tag) : List (Tag × MultiValue α) :=
+  top.filter (fun kv => !(kv.1 == k))
+
+/-- `s.Tail.Merge(rng, v); delete(s.Top, k)` for the listed keys, in the listed order, each with the outcome of its
+    max-counter-host draw -/
+def foldIntoTail (r : Row α) : List (Tag × Bool) → Row α
+  | [] => r
+  | (k, pick) :: ks =>
+    match r.top.lookup k with
+    | none => foldIntoTail r ks
+    | some m => foldIntoTail { r with tail := mvMerge r.tail m pick, top := topRemove r.top k } ks
+
+/-- MultiItem with its sampleFactorLog2 -/
+structure AgentRow (α : Type) where
+  row : Row α
+  sfLog2 : Nat
+deriving DecidableEq, Repr
+
+/-- an entry can be evicted by a round with factor 2^k only if `!(Count() >= sf)` and `!(Count() > rv)` for some
+    integer draw rv < sf, i.e. Count < sf and Count ≤ sf - 1 -/
+def evictable (k : Nat) (m : MultiValue α) : Bool :=
+  decide (m.v.counter < ((2 ^ k : Nat) : α)) && decide (m.v.counter ≤ ((2 ^ k - 1 : Nat) : α))
+
+def evictionOk (a : AgentRow α) (ev : List (Tag × Bool)) : Bool :=
+  ev.all (fun kp => match a.row.top.lookup kp.1 with
+    | some m => evictable (a.sfLog2 + 1) m
+    | none => false)
+
+/-- MultiItem.resample: one round; `ev` = the evicted keys in enumeration order -/
+def resampleRound (a : AgentRow α) (ev : List (Tag × Bool)) : Option (AgentRow α) :=
+  if evictionOk a ev then some ⟨foldIntoTail a.row ev, a.sfLog2 + 1⟩ else none
+
+/-- `for len(s.Top) >= capacity { s.resample(rng) }`: the list of rounds is the fuel and must be used up exactly -/
+def resampleLoop (cap : Nat) : AgentRow α → List (List (Tag × Bool)) → Option (AgentRow α)
+  | a, [] => if a.row.top.length < cap then some a else none
+  | a, ev :: rest =>
+    if a.row.top.length < cap then none
+    else match resampleRound a ev with
+      | none => none
+      | some a' => resampleLoop cap a' rest
+
+/-- DefaultStringTopCapacity -/
+def defaultTopCapacity : Nat := 100
+
+/-- Shard.Apply* with the full MultiItem.MapStringTop: `redirect` = outcome of
+    `sampleFactorLog2 != 0 && rng.Float64()*sf >= count` (only possible after a resample), `rounds` = the resample rounds -/
+def rowEventCap (cap : Nat) (a : AgentRow α) (topTag : Tag) (e : Event α) (redirect : Bool)
+    (rounds : List (List (Tag × Bool))) : Option (AgentRow α) :=
+  if e.count ≤ 0 then some a
+  else if topTag.isEmpty then some { a with row := { a.row with tail := applyEvent a.row.tail e } }
+  else if (a.row.top.lookup topTag.normalize).isSome then
+    some { a with row := { a.row with top := topUpdate a.row.top topTag.normalize (fun m => applyEvent m e) } }
+  else if redirect then
+    (if a.sfLog2 = 0 then none else some { a with row := { a.row with tail := applyEvent a.row.tail e } })
+  else match resampleLoop (if cap < 1 then defaultTopCapacity else cap) a rounds with
+    | none => none
+    | some a' => some { a' with row := { a'.row with top := topUpdate a'.row.top topTag.normalize (fun m => applyEvent m e) } }
+
+/-- MultiItem.FinishStringTop(capacity): the entries beyond the `capacity` largest counts are folded into Tail; `ev` =
+    those entries in the order of the (unstable) sort.  Checked: their number, and no folded count above a kept one. -/
+def finishOk (cap : Nat) (r : Row α) (ev : List (Tag × Bool)) : Bool :=
+  decide (ev.length = r.top.length - cap) &&
+  decide ((ev.map (·.1)).eraseDups.length = ev.length) &&
+  ev.all (fun kp => match r.top.lookup kp.1 with
+    | none => false
+    | some m => r.top.all (fun kv => (ev.any (fun q => q.1 == kv.1)) || decide (m.v.counter ≤ kv.2.v.counter)))
+
+def finishTop (cap : Nat) (a : AgentRow α) (ev : List (Tag × Bool)) : Option (AgentRow α) :=
+  if finishOk cap a.row ev then some { a with row := foldIntoTail a.row ev } else none
+
+/-- everything the agent does to a row before it is sent -/
+inductive AgentOp (α : Type) where
+  | event (cap : Nat) (topTag : Tag) (e : Event α) (redirect : Bool) (rounds : List (List (Tag × Bool)))
+  | finish (cap : Nat) (ev : List (Tag × Bool))
+
+def agentStep (a : AgentRow α) : AgentOp α → Option (AgentRow α)
+  | .event cap topTag e redirect rounds => rowEventCap cap a topTag e redirect rounds
+  | .finish cap ev => finishTop cap a ev
+
+def agentRun : AgentRow α → List (AgentOp α) → Option (AgentRow α)
+  | a, [] => some a
+  | a, op :: ops => match agentStep a op with
+    | none => none
+    | some a' => agentRun a' ops
+
 end
 
 end SH.Transfer
